@@ -147,7 +147,7 @@ func classifyWire(c *wireCase, b *gen.Builder) (nontrivial bool) {
 }
 
 func c07Opts() gen.MsgOpts {
-	return gen.MsgOpts{MaxSigners: 6, Csigs: true, Hdr: peerHdrOpts(), HugeLens: true}
+	return gen.MsgOpts{MaxSigners: 6, Csigs: true, Hdr: peerHdrOpts(), HugeLens: true, CrossCurve: true}
 }
 
 func TestC07_Random(t *testing.T) {
